@@ -1,3 +1,5 @@
 -- Helper lemmas used by the property theorems.
 import Proofs.EarlyStop
 import Proofs.SkyEstimate
+import Proofs.RealScalar
+import Proofs.Names
